@@ -166,7 +166,19 @@ def _group_integrands_by_quadrature_rule(
         if scheme == "custom":
             points = md["quadrature_points"]
             weights = md["quadrature_weights"]
-            rules[cell_type] = (points, weights, None)
+            # The rule lives on the integration entity: as for the other
+            # schemes, facet and ridge kernels are registered under the cell
+            # type of the facet or ridge, not of the cell
+            entity_cell_type = cell_type
+            if "facet" in integral_type:
+                facet_types = basix.cell.subentity_types(cell_type)[-2]
+                assert len(set(facet_types)) == 1
+                entity_cell_type = facet_types[0]
+            elif integral_type == "ridge":
+                ridge_types = basix.cell.subentity_types(cell_type)[-3]
+                assert len(set(ridge_types)) == 1
+                entity_cell_type = ridge_types[0]
+            rules[entity_cell_type] = (points, weights, None)
         elif scheme == "vertex":
             # The vertex scheme, i.e., averaging the function value in the
             # vertices and multiplying with the simplex volume, is only of
